@@ -158,6 +158,12 @@ func (r *rawResponseWriter) finish(snapshotHeaders http.Header) {
 	case *conformancev1.RawHTTPResponse_Stream:
 		_ = internal.WriteRawStreamContents(contents.Stream, r.respWriter)
 	}
+	// The headers are on the wire by now. If a trailer has the same name as a
+	// header, net/http would send the header's values again with the trailer
+	// (declared trailers take the values stored under the plain key).
+	for _, hdr := range resp.Trailers {
+		r.respWriter.Header().Del(hdr.Name)
+	}
 	internal.AddTrailers(resp.Trailers, r.respWriter.Header())
 }
 
